@@ -1,11 +1,368 @@
+/-
+  C10 — Filters pass exactly the configured set of commands, keys, slots and
+  databases.
+
+  Property theorems only (helper lemmas: Proofs/FilterRange.lean,
+  FilterTrie.lean, FilterKeys.lean, FilterCmdKey.lean). Quantifier: all filter
+  configurations (any number of slot entries in any order — overlapping,
+  nested, adjacent, single-slot, reversed, malformed; any prefix white/black
+  lists of arbitrary byte strings; any database list; any command blacklist)
+  and all commands / keys (arbitrary byte strings).
+
+  Vocabulary (defined in Proofs/, repeated here):
+    entryRange? e      what a configured slot entry denotes: [x] ↦ (x,x),
+                       [l,r] with l ≤ r ↦ (l,r), anything else ↦ nothing
+    slotIn es s        ∃ e ∈ es, entryRange? e = some (l,r) ∧ l ≤ s ≤ r
+    prefixHit ps k     ∃ p ∈ ps, p ≠ [] ∧ p <+: k        (byte-wise prefix)
+    cmdListed l c      ∃ b ∈ l, c = lower b ∨ c = upper b (ASCII case)
+    keptIdx f args idx the key positions whose key `f` accepts, in order
+  `build c` is a bare RedisKeyFilter built from `c`; `buildOutput c` is the
+  filter NewRedisOutput builds (NoRouteCmds and the two reserved prefixes,
+  regenerated from source, always inserted). The empty-string prefix is "no
+  rule" for code and specification alike (`p ≠ []`).
+-/
 import GunYu.Model.Filter
+import GunYu.Proofs.FilterRange
+import GunYu.Proofs.FilterTrie
+import GunYu.Proofs.FilterKeys
+import GunYu.Proofs.FilterCmdKey
+import GunYu.Props.C11
+
 namespace GunYu.Props.C10
 open GunYu GunYu.Filter
 
+/-! ### slot ranges -/
+
+/-- After ANY sequence of `InsertSlotInList` calls (any number, order, overlap,
+    nesting, adjacency; calls with `left > right` are ignored) the lookup
+    answers exactly "the slot lies in the union of the valid ranges". -/
+theorem rangeLookup_iff (rs : List (Nat × Nat)) (s : Nat) :
+    (RangeList.insertAll rs).contains s = true ↔ ∃ p ∈ rs, p.1 ≤ p.2 ∧ p.1 ≤ s ∧ s ≤ p.2 := by
+  unfold RangeList.insertAll
+  rw [RangeList.contains_iff _ _ (RangeList.wf_foldl rs _ RangeList.wf_empty)]
+  constructor
+  · rintro ⟨p, hp, h1, h2⟩
+    rcases (RangeList.mem_foldl rs _ p).mp hp with ⟨hp, hle⟩ | hp
+    · exact ⟨p, hp, hle, h1, h2⟩
+    · simp [RangeList.empty] at hp
+  · rintro ⟨p, hp, hle, h1, h2⟩
+    exact ⟨p, (RangeList.mem_foldl rs _ p).mpr (Or.inl ⟨hp, hle⟩), h1, h2⟩
+
+-- nested + overlapping + reversed: the D2 witness configuration
+example : (RangeList.insertAll [(0, 16383), (10, 20), (30, 40), (9, 3)]).contains 21 = true := by decide
+example : (RangeList.insertAll [(10, 20), (30, 40), (15, 35), (9, 3)]).contains 41 = false := by decide
+example : ∃ p ∈ [(0, 16383), (10, 20), (30, 40)], p.1 ≤ p.2 ∧ p.1 ≤ 21 ∧ 21 ≤ p.2 :=
+  ⟨(0, 16383), by simp, by decide, by decide, by decide⟩
+
+private theorem filterSlot_of (f : KeyFilter) (sw sb : List (List Nat)) (k : Bytes)
+    (hw : f.slotWhite = insertSlotList none sw) (hb : f.slotBlack = insertSlotList none sb) :
+    f.filterSlot k = true ↔
+      slotIn sb (Slot.hashSlotSpec k) ∨ (sw ≠ [] ∧ ¬ slotIn sw (Slot.hashSlotSpec k)) := by
+  rw [filterSlot_eq, hw, hb, C11.keyToSlot_eq_spec, Bool.or_eq_true, Bool.and_eq_true,
+    optContains_insertSlotList, isSome_insertSlotList, Bool.not_eq_true', ← optContains_insertSlotList sw]
+  simp
+
+/-- The slot rule of the tool's output filter rejects a key exactly when its
+    cluster slot (Redis HASH_SLOT, by C11) lies in the union of the black
+    entries, or a white list is configured and the slot is outside the union
+    of the white entries. -/
+theorem filterSlot_iff (c : FilterCfg) (k : Bytes) :
+    (buildOutput c).filterSlot k = true ↔
+      slotIn c.slotBlack (Slot.hashSlotSpec k) ∨
+      (c.slotWhite ≠ [] ∧ ¬ slotIn c.slotWhite (Slot.hashSlotSpec k)) :=
+  filterSlot_of _ _ _ k (out_slotWhite c) (out_slotBlack c)
+
+/-- the same for a bare filter -/
+theorem filterSlot_iff_bare (c : FilterCfg) (k : Bytes) :
+    (build c).filterSlot k = true ↔
+      slotIn c.slotBlack (Slot.hashSlotSpec k) ∨
+      (c.slotWhite ≠ [] ∧ ¬ slotIn c.slotWhite (Slot.hashSlotSpec k)) :=
+  filterSlot_of _ _ _ k (build_slotWhite c) (build_slotBlack c)
+
+-- "{a}{b}" has slot 15495: inside white [0,16383],[10,20],[30,40] ⇒ accepted;
+-- with black [15000,16000] nested in white ⇒ rejected
+example : (buildOutput { slotWhite := [[0, 16383], [10, 20], [30, 40]] }).filterSlot
+    [123,97,125,123,98,125] = false := by decide +kernel
+example : (buildOutput { slotWhite := [[0, 16383], [10, 20]], slotBlack := [[15000, 16000], [7]] }).filterSlot
+    [123,97,125,123,98,125] = true := by decide +kernel
+example : slotIn [[15000, 16000], [7], [9, 3], []] 15495 :=
+  ⟨[15000, 16000], by simp, 15000, 16000, by decide, by decide, by decide⟩
+
+/-! ### key prefixes -/
+
+/-- The byte-indexed trie built from any list of prefixes matches a key exactly
+    when some non-empty configured prefix is a byte-wise prefix of the key. -/
+theorem prefixMatch_iff (ps : List Bytes) (k : Bytes) :
+    (ps.foldl (fun t p => t.insert p) Trie.empty).isPrefixMatch k = true ↔
+      ∃ p ∈ ps, p ≠ [] ∧ p <+: k := by
+  rw [Trie.isPrefixMatch_iff]
+  constructor
+  · rintro ⟨p, h1, h2, h3⟩
+    rcases (Trie.search_foldl_insert ps _ p).mp h2 with h2 | h2
+    · exact ⟨p, h2, h1, h3⟩
+    · rw [Trie.search_empty] at h2; cases h2
+  · rintro ⟨p, h1, h2, h3⟩
+    exact ⟨p, h2, (Trie.search_foldl_insert ps _ p).mpr (Or.inl h1), h3⟩
+
+-- D3 witnesses: prefix \xff does not match \xfe…; prefix \xc3 matches \xc3\xa9;
+-- shared prefixes; the empty prefix is no rule
+example : ([[0xff]].foldl (fun t p => t.insert p) Trie.empty).isPrefixMatch [0xfe, 97, 98] = false := by decide
+example : ([[0xc3]].foldl (fun t p => t.insert p) Trie.empty).isPrefixMatch [0xc3, 0xa9] = true := by decide
+example : ([[97, 98, 99], [97, 98], []].foldl (fun t p => t.insert p) Trie.empty).isPrefixMatch [97, 98, 100] = true := by
+  decide
+example : ([[]].foldl (fun t p => t.insert p) Trie.empty).isPrefixMatch [97] = false := by decide
+
+/-- The prefix rule of the tool's output filter: black hit (the two reserved
+    prefixes are always part of the black list), or a white list is configured
+    and no white prefix hits. -/
+theorem filterKey_iff (c : FilterCfg) (k : Bytes) :
+    (buildOutput c).filterKey k = true ↔
+      prefixHit (reservedPrefixes ++ c.prefBlack) k ∨ (c.prefWhite ≠ [] ∧ ¬ prefixHit c.prefWhite k) := by
+  rw [filterKey_eq, out_prefBlack, out_prefWhite, Bool.or_eq_true, Bool.and_eq_true,
+    optMatch_prefixes2, isSome_insertPrefixes, Bool.not_eq_true', ← optMatch_prefixes c.prefWhite]
+  simp
+
+/-- the same for a bare filter -/
+theorem filterKey_iff_bare (c : FilterCfg) (k : Bytes) :
+    (build c).filterKey k = true ↔
+      prefixHit c.prefBlack k ∨ (c.prefWhite ≠ [] ∧ ¬ prefixHit c.prefWhite k) := by
+  rw [filterKey_eq, build_prefBlack, build_prefWhite, Bool.or_eq_true, Bool.and_eq_true,
+    optMatch_prefixes, isSome_insertPrefixes, Bool.not_eq_true', ← optMatch_prefixes c.prefWhite]
+  simp
+
+/-- The tool's own bookkeeping keys are never forwarded: a key that starts with
+    `config.CheckpointKey` or `config.NamespacePrefixKey` (constants
+    regenerated from source) is rejected under EVERY configuration. -/
+theorem bookkeeping_never_forwarded (c : FilterCfg) (k : Bytes)
+    (h : Gen.checkpointKey <+: k ∨ Gen.namespacePrefixKey <+: k) :
+    (buildOutput c).filterKey k = true ∧ (buildOutput c).keyRejected k = true := by
+  have hk : (buildOutput c).filterKey k = true := by
+    rw [filterKey_iff]
+    left
+    rcases h with h | h
+    · exact ⟨Gen.checkpointKey, by simp [reservedPrefixes], by decide, h⟩
+    · exact ⟨Gen.namespacePrefixKey, by simp [reservedPrefixes], by decide, h⟩
+  exact ⟨hk, by simp [KeyFilter.keyRejected, hk]⟩
+
+-- "redis-gunyu-checkpoint:x" and "/redis-gunyu/a" under an empty and under a permissive configuration
+example : Gen.checkpointKey <+: Gen.checkpointKey ++ [58, 120] := List.prefix_append _ _
+example : (buildOutput {}).filterKey (Gen.checkpointKey ++ [58, 120]) = true := by decide +kernel
+example : (buildOutput { prefWhite := [Gen.namespacePrefixKey] }).filterKey (Gen.namespacePrefixKey ++ [47, 97]) = true := by
+  decide +kernel
+example : (buildOutput {}).filterKey [117, 115, 101, 114] = false := by decide +kernel
+
+/-! ### commands carrying keys -/
+
+/-- Every key position the command table resolves is a position of an actual
+    argument (so the "index out of range ⇒ reject" guard never fires), and a
+    resolved command has at least one key. -/
+theorem keyPositions_inRange (cmd : Bytes) (args : List Bytes) (idx : List Nat)
+    (h : keyIndexes cmd args = some idx) : idx ≠ [] ∧ ∀ i ∈ idx, i < args.length :=
+  keyIndexes_inRange h
+
+/-- A command is forwarded untouched when no key rule is configured or when
+    the (regenerated) command table does not resolve its key positions. -/
+theorem filterCmdKey_passthrough (f : KeyFilter) (cmd : Bytes) (args : List Bytes)
+    (h : f.hasKeyRules = false ∨ keyIndexes cmd args = none) :
+    f.filterCmdKey cmd args = some args := by
+  unfold KeyFilter.filterCmdKey
+  rcases h with h | h
+  · simp [h]
+  · simp [h]
+
+/-- For every filter with a key rule and every command whose key positions the
+    table resolves to `idx` (with `kept` the positions of accepted keys):
+    * all keys accepted ⇒ forwarded unchanged;
+    * no key accepted ⇒ withheld;
+    * otherwise DEL / UNLINK ⇒ exactly the accepted keys, in order;
+      MSET ⇒ exactly the accepted key/value pairs, in order (withheld if an
+      accepted key has no value); any other command ⇒ withheld entirely. -/
+theorem filterCmdKey_spec (f : KeyFilter) (cmd : Bytes) (args : List Bytes) (idx : List Nat)
+    (hr : f.hasKeyRules = true) (hidx : keyIndexes cmd args = some idx) :
+    (keptIdx f args idx = idx → f.filterCmdKey cmd args = some args) ∧
+    (keptIdx f args idx = [] → f.filterCmdKey cmd args = none) ∧
+    (keptIdx f args idx ≠ idx → keptIdx f args idx ≠ [] →
+      ((lower cmd = wDel ∨ lower cmd = wUnlink) →
+        f.filterCmdKey cmd args = some ((keptIdx f args idx).map (fun i => args.getD i []))) ∧
+      (lower cmd = wMset → (∀ i ∈ keptIdx f args idx, i + 1 < args.length) →
+        f.filterCmdKey cmd args =
+          some ((keptIdx f args idx).flatMap (fun i => [args.getD i [], args.getD (i + 1) []]))) ∧
+      (lower cmd = wMset → (∃ i ∈ keptIdx f args idx, args.length ≤ i + 1) →
+        f.filterCmdKey cmd args = none) ∧
+      (lower cmd ≠ wDel → lower cmd ≠ wUnlink → lower cmd ≠ wMset →
+        f.filterCmdKey cmd args = none)) := by
+  refine ⟨filterCmdKey_all f cmd args idx hr hidx, filterCmdKey_none f cmd args idx hr hidx, ?_⟩
+  intro hk1 hk2
+  have hs := filterCmdKey_some f cmd args idx hr hidx hk1 hk2
+  refine ⟨?_, ?_, ?_, ?_⟩
+  · intro hd
+    rw [hs, if_pos hd]
+  · intro hm hall
+    have hnd : ¬ (lower cmd = wDel ∨ lower cmd = wUnlink) := by
+      rw [hm]; decide
+    have hne : ¬ ∃ i ∈ keptIdx f args idx, args.length ≤ i + 1 := by
+      rintro ⟨i, hi, hle⟩
+      have := hall i hi
+      omega
+    rw [hs, if_neg hnd, if_pos hm, if_neg hne]
+  · intro hm hex
+    have hnd : ¬ (lower cmd = wDel ∨ lower cmd = wUnlink) := by
+      rw [hm]; decide
+    rw [hs, if_neg hnd, if_pos hm, if_pos hex]
+  · intro h1 h2 h3
+    have hnd : ¬ (lower cmd = wDel ∨ lower cmd = wUnlink) := fun h => h.elim h1 h2
+    rw [hs, if_neg hnd, if_neg h3]
+
+/-- A resolved key position holding a bookkeeping key is never among the
+    forwarded positions, under every configuration: the filter has a key rule,
+    the position is not in `keptIdx`, hence `keptIdx ≠ idx` and by
+    `filterCmdKey_spec` the command is withheld or projected (DEL / UNLINK /
+    MSET) to positions that exclude it. -/
+theorem bookkeeping_cmd (c : FilterCfg) (args : List Bytes) (idx : List Nat) (i : Nat)
+    (hi : i ∈ idx)
+    (h : Gen.checkpointKey <+: args.getD i [] ∨ Gen.namespacePrefixKey <+: args.getD i []) :
+    (buildOutput c).hasKeyRules = true ∧
+    i ∉ keptIdx (buildOutput c) args idx ∧
+    keptIdx (buildOutput c) args idx ≠ idx := by
+  have hrej := (bookkeeping_never_forwarded c _ h).2
+  have hnot : i ∉ keptIdx (buildOutput c) args idx := by
+    unfold keptIdx
+    rw [List.mem_filter]
+    rintro ⟨_, h2⟩
+    rw [hrej] at h2
+    exact absurd h2 (by decide)
+  have hr : (buildOutput c).hasKeyRules = true := by
+    have : (buildOutput c).prefBlack.isSome = true := by
+      rw [out_prefBlack, isSome_insertPrefixes, isSome_insertPrefixes]
+      right; left; simp [reservedPrefixes]
+    simp [KeyFilter.hasKeyRules, this]
+  exact ⟨hr, hnot, fun he => hnot (by rw [he]; exact hi)⟩
+
+-- DEL a b {reserved}: projected to the accepted keys; SET {reserved} v: withheld;
+-- MSET with a rejected pair: accepted pairs kept; RENAME with one rejected key: withheld
+example : (buildOutput {}).filterCmdKey wDel [[97], Gen.checkpointKey ++ [58, 49], [98]] = some [[97], [98]] := by
+  decide +kernel
+example : (buildOutput {}).filterCmdKey [115,101,116] [Gen.namespacePrefixKey ++ [47, 120], [118]] = none := by
+  decide +kernel
+example : (build { prefBlack := [[120]] }).filterCmdKey [77,83,69,84] [[97], [49], [120, 49], [50], [98], [51]] =
+    some [[97], [49], [98], [51]] := by decide +kernel
+example : (build { prefBlack := [[120]] }).filterCmdKey [114,101,110,97,109,101] [[97], [120, 49]] = none := by
+  decide +kernel
+example : keyIndexes [77,83,69,84] [[97], [49], [120, 49], [50], [98], [51]] = some [0, 2, 4] := by decide +kernel
+example : keptIdx (build { prefBlack := [[120]] }) [[97], [49], [120, 49], [50], [98], [51]] [0, 2, 4] = [0, 4] := by
+  decide +kernel
+
+/-! ### command names -/
+
+/-- The command rule of the tool's output filter: a name is withheld exactly
+    when it equals the lower- or upper-case form of an entry of `NoRouteCmds`
+    (regenerated) or of the configured blacklist. -/
+theorem cmd_blacklist_iff (c : FilterCfg) (cmd : Bytes) :
+    (buildOutput c).filterCmd cmd = true ↔ cmdListed (Gen.noRouteCmds ++ c.cmdBlack) cmd := by
+  rw [filterCmd_eq, out_cmdBlack, out_cmdWhite]
+  simp only [Option.isSome_none, Bool.false_and, Bool.or_false]
+  rw [optSearch_insertCmds, optSearch_insertCmds]
+  unfold cmdListed
+  constructor
+  · rintro (⟨b, hb, h⟩ | ⟨b, hb, h⟩ | h)
+    · exact ⟨b, List.mem_append.mpr (Or.inr hb), h⟩
+    · exact ⟨b, List.mem_append.mpr (Or.inl hb), h⟩
+    · simp [optSearch] at h
+  · rintro ⟨b, hb, h⟩
+    rcases List.mem_append.mp hb with hb | hb
+    · exact Or.inr (Or.inl ⟨b, hb, h⟩)
+    · exact Or.inl ⟨b, hb, h⟩
+
+/-- As the parser uses it (names arrive lower-cased): the name `n` is withheld
+    exactly when it equals a listed name up to ASCII case. -/
+theorem cmd_blacklist_folded (c : FilterCfg) (n : Bytes) :
+    (buildOutput c).filterCmd (lower n) = true ↔ ∃ b ∈ Gen.noRouteCmds ++ c.cmdBlack, lower b = lower n := by
+  rw [cmd_blacklist_iff]
+  unfold cmdListed
+  constructor
+  · rintro ⟨b, hb, h | h⟩
+    · exact ⟨b, hb, h.symm⟩
+    · refine ⟨b, hb, ?_⟩
+      have := congrArg lower h
+      rw [lower_lower, lower_upper] at this
+      exact this.symm
+  · rintro ⟨b, hb, h⟩
+    exact ⟨b, hb, Or.inl h.symm⟩
+
+/-- bare filter with black and white command lists -/
+theorem cmd_filter_iff_bare (c : FilterCfg) (cmd : Bytes) :
+    (build c).filterCmd cmd = true ↔
+      cmdListed c.cmdBlack cmd ∨ (c.cmdWhite ≠ [] ∧ ¬ cmdListed c.cmdWhite cmd) := by
+  have hs : ∀ l : List Bytes, optSearch (insertCmds none l true) cmd = true ↔ cmdListed l cmd := by
+    intro l
+    rw [optSearch_insertCmds]
+    unfold cmdListed
+    simp [optSearch]
+  rw [filterCmd_eq, build_cmdBlack, build_cmdWhite, Bool.or_eq_true, Bool.and_eq_true, hs,
+    isSome_insertCmds, Bool.not_eq_true', ← hs c.cmdWhite]
+  simp
+
+-- "flushall" (NoRouteCmds has FLUSHALL), configured "Del" catches "del" and "DEL" but not "Del"
+example : (buildOutput {}).filterCmd [102,108,117,115,104,97,108,108] = true := by decide +kernel
+example : (buildOutput { cmdBlack := [[68,101,108]] }).filterCmd [100,101,108] = true := by decide +kernel
+example : (buildOutput { cmdBlack := [[68,101,108]] }).filterCmd [115,101,116] = false := by decide +kernel
+example : cmdListed (Gen.noRouteCmds ++ [[68,101,108]]) [100,101,108] :=
+  ⟨[68,101,108], by simp, Or.inl (by decide)⟩
+
+/-! ### databases -/
+
+/-- A database is bypassed exactly when it is listed (−1 = "no database" never is). -/
 theorem db_iff (c : FilterCfg) (db : Int) :
+    (buildOutput c).filterDb db = true ↔ db ≠ -1 ∧ db ∈ c.dbBlack := by
+  unfold KeyFilter.filterDb
+  rw [out_dbBlack]
+  by_cases h : db = -1 <;> simp [h]
+
+theorem db_iff_bare (c : FilterCfg) (db : Int) :
     (build c).filterDb db = true ↔ db ≠ -1 ∧ db ∈ c.dbBlack := by
-  simp [build, KeyFilter.filterDb, KeyFilter.insertDbBlackList, KeyFilter.insertSlotBlackList,
-    KeyFilter.insertSlotWhiteList, KeyFilter.insertPrefixKeyWhiteList, KeyFilter.insertPrefixKeyBlackList,
-    KeyFilter.insertCmdWhiteList, KeyFilter.insertCmdBlackList]
+  unfold KeyFilter.filterDb
+  rw [build_dbBlack]
+  by_cases h : db = -1 <;> simp [h]
+
+example : (buildOutput { dbBlack := [1, 3, -1] }).filterDb 3 = true := by decide
+example : (buildOutput { dbBlack := [1, 3, -1] }).filterDb (-1) = false := by decide
+example : (buildOutput { dbBlack := [1, 3, -1] }).filterDb 2 = false := by decide
+
+/-! ### the parser's use of the filter -/
+
+/-- An ordinary command (not PING / SELECT) is queued for the target exactly
+    when its database is not bypassed, its name is not withheld, it is not the
+    sentinel hello, and the key rules let it through — with the arguments the
+    key rules produce. -/
+theorem parse_forward_iff (f : KeyFilter) (bypass : Bool) (cmd : Bytes) (argv out : List Bytes)
+    (hp : cmd ≠ wPing) (hs : eqFold cmd wSelect = false) :
+    parseFilter f bypass cmd argv = (bypass, .forward cmd out) ↔
+      bypass = false ∧ f.filterCmd cmd = false ∧
+      (eqFold cmd wPublish && eqFold (argv.headD []) wSentinelHello) = false ∧
+      f.filterCmdKey cmd argv = some out := by
+  unfold parseFilter
+  have hp' : (cmd != wPing) = true := by simpa using hp
+  simp only [hp', if_true, hs, Bool.false_eq_true, if_false]
+  cases hfc : f.filterCmd cmd <;> simp only [Bool.false_eq_true, if_false, if_true]
+  · cases hsen : (eqFold cmd wPublish && eqFold (argv.headD []) wSentinelHello) <;>
+      simp only [Bool.false_eq_true, if_false, if_true]
+    · cases bypass <;> simp only [Bool.false_eq_true, if_false, if_true]
+      · cases hk : f.filterCmdKey cmd argv <;> simp
+      · simp
+    · simp
+  · simp
+
+/-- After `SELECT n` of a listed database everything is bypassed until the
+    next SELECT; after a SELECT of an unlisted one nothing is. -/
+theorem parse_select_bypass (f : KeyFilter) (bypass : Bool) (a : Bytes) (n : Int)
+    (ha : atoi? a = some n) :
+    (parseFilter f bypass wSelect [a]).1 = f.filterDb n := by
+  unfold parseFilter
+  have h1 : (wSelect != wPing) = true := by decide
+  have h2 : eqFold wSelect wSelect = true := by decide
+  simp only [h1, if_true, h2, ha]
+  cases f.filterDb n <;> simp only [Bool.false_eq_true, if_false, if_true]
+  cases f.filterCmdKey wSelect [a] <;> simp only
+  split <;> rfl
 
 end GunYu.Props.C10
